@@ -156,6 +156,8 @@ type Run struct {
 	poisoned   []string
 	randLog    []*Term
 	macApps    []macApp
+	injApps    []injApp
+	syncMaps   map[string]*MapV
 	guard      *Term
 	merges     int
 	predDepth  int
